@@ -219,6 +219,12 @@ func main() {
 				pat = p.Arg // explicit command pattern
 			}
 			proc := wf.NewProc(p.Name, pat)
+			for _, q := range p.Params {
+				// a parameter the command pattern does not mention (it is only used in an output path pattern)
+				if !strings.Contains(pat, "{p:"+q) {
+					proc.InitInParamPort(proc, q)
+				}
+			}
 			for _, o := range p.Outs {
 				// an out-port the command pattern does not mention (the tool chooses its own file name, the path is declared with SetOut only)
 				if !strings.Contains(pat, "{o:"+o) && !strings.Contains(pat, "{os:"+o) {
